@@ -287,6 +287,8 @@ def value_kind(st, v):
 		return ('record', v.T.pyclass)
 	if v is None:
 		return ('none',)
+	if isinstance(v, ExtObj):
+		return (v.kind,)
 	if isinstance(v, (float, SReal)):
 		return ('float',)
 	return ('unknown', type(v).__name__)
